@@ -111,6 +111,9 @@ def impl(line):
         files_arg = paths if len(paths) > 1 or h % 2 else paths[0]
         if h % 3 == 0:
             files_arg = [pathlib.Path(p) for p in paths] if isinstance(files_arg, list) else pathlib.Path(files_arg)
+        if h % 5 == 0 and isinstance(files_arg, list):
+            # any iterable of paths is allowed, also a one-shot one
+            files_arg = iter(files_arg) if h % 10 else (p for p in list(files_arg))
         def_arg = defn
         if h % 4 == 0:
             try:
